@@ -41,7 +41,7 @@ def norm_expected(v):
 
 def cell_matches(w, e):
     if e is None:
-        return w is None or w == ''  # an openpyxl cell holding "" is an empty cell
+        return w is None
     if isinstance(e, bool) or isinstance(w, bool):
         return isinstance(w, bool) and isinstance(e, bool) and w == e
     if isinstance(e, float):
@@ -242,4 +242,4 @@ STRATEGIES = {'specs': _specs}
 
 def parts(tier, seed):
     q = tier == 'quick'
-    return [('hyp', 'specs', 240 if q else 6000, 10)]
+    return [('hyp', 'specs', 1600 if q else 12000, 10)]
